@@ -26,6 +26,7 @@ RULE = (
     "Non-trivial = >= 2 iterations and both labels among the training rows and at least one iteration in which "
     "the positive set changed; distinct = case parameters."
     " predict() on the training PSMs must reproduce the estimator's own scores after its last fit, directly after training and after the trained model was refined by a second fit() on the same PSMs with the feature columns in another order."
+    " Every fourth table starts training from a feature 1e9 + milli-units."
 )
 ASSUMPTIONS = [
     "accepted targets are computed with the real tdc on the recorded outputs (C01)",
@@ -150,8 +151,14 @@ def run_case(case):
     tab = psm.psm_table(rng, n_spectra=int(rng.integers(250, 700)), mult_max=2, key_cols=("ExpMass",),
                         sep_strength=float(rng.choice([1.5, 2.5, 3.5])), ties=bool(case["index"] % 6 == 5))
     n = len(tab["df"])
+    # every fourth table carries the feature that starts training as a fixed-point value with a large offset
+    # (1e9 + milli-units): exact in float64, neighbours coincide in float32
+    if case["index"] % 4 == 1:
+        f0 = case["direction"] or "info0"
+        tab["df"][f0] = 1e9 + np.round(tab["df"][f0].values * 1000)
     seed = int(rng.integers(1 << 30))
-    extra = dict(learner=learner, max_iter=case["max_iter"], direction=case["direction"], n=n, train_fdr=train_fdr)
+    extra = dict(learner=learner, max_iter=case["max_iter"], direction=case["direction"], n=n, train_fdr=train_fdr,
+                 offset_feature=bool(case["index"] % 4 == 1))
     variants = {}
     perm = rng.permutation(n)
     for name, order, shuffle in (("base", None, True), ("noshuffle", None, False), ("permuted", perm, True),
@@ -260,8 +267,10 @@ def run_case(case):
         idx = np.array([rid_pos[r] for r in want])
         w = np.array([want[r] for r in want], dtype=float)
         res.count("predictions_compared_with_training_time_scores")
-        if not np.allclose(pred[idx], w, rtol=1e-12, atol=1e-12):
-            res.violate("predict_differs_from_training_time_scores", what, rows=int((~np.isclose(pred[idx], w, rtol=1e-12, atol=1e-12)).sum()),
+        # (summation order changes with the column order: with an offset feature the terms are ~1e6 and cancel to O(1),
+        # leaving differences of ~1e-10; a misalignment shows as O(1))
+        if not np.allclose(pred[idx], w, rtol=1e-9, atol=1e-7):
+            res.violate("predict_differs_from_training_time_scores", what, rows=int((~np.isclose(pred[idx], w, rtol=1e-9, atol=1e-7)).sum()),
                         max_abs_diff=float(np.abs(pred[idx] - w).max()), **extra)
 
     tag = getattr(base_model.estimator, "tag", None)
